@@ -33,14 +33,17 @@ CLAIMS = {
         technique='Coq proof (projection lemma over the pairing spec + keyed-state machine) + differential correspondence',
         ref='DESIGN.md §5 C05'),
     'C15': dict(
-        text='Coq theorems c15_sorted/first_wins/order_independent/attribution/attribution_none/feed/frames/frames_iff: for '
+        text='Coq theorems c15_code_refines_model/code_lists_parallel (the statements of callstacks_parser.py, regenerated from the '
+             'source on every run and run on the two parallel lists with list.insert / negative indexing / IndexError written '
+             'out, compute the model for every trace stream) and c15_sorted/first_wins/order_independent/attribution/attribution_none/feed/frames/frames_iff: for '
              'ALL announcement sequences and samples the image table is strictly sorted, equals the first-occurrence map '
              '(hence is order-independent for distinct images), each frame goes to the greatest earlier-announced load '
              'address <= frame with offset frame-address, and frames are the first N words of the data records; closed under '
              'the global context. Tied to the code by a correspondence through the real decoders and CallstacksParser.',
         note='trusted: Coq kernel+vm_compute; hand models Callstacks.v/Composite.v (parallel lists as list of pairs; bisect on '
-             'sorted list = count of elements <= x) validated against the code each run; recogniser constants regenerated',
-        technique='Coq proof (sorted-table invariant, extensionality of sorted maps) + differential correspondence',
+             'sorted list = count of elements <= x) validated against the code each run; recogniser constants regenerated; '
+             'translator tr_callstacks.py (fail-closed)',
+        technique='Coq proof (sorted-table invariant, extensionality of sorted maps, refinement of the regenerated statement program) + differential correspondence',
         ref='DESIGN.md §5 C15'),
     'C20': dict(
         text='Coq theorems c20_vmfault_result/pidprot, c20_launch_perm/sorted/stable, c20_perf_th_info/perf_cs over ALL windows '
@@ -195,7 +198,10 @@ CLAIMS = {
                   'API-level correspondence',
         ref='DESIGN.md §5 C13, §10'),
     'C14': dict(
-        text='Coq theorems c14_event_line / c14_trace_line / c14_callstack_line / c14_log_line (every line is the concatenation, '
+        text='Coq theorems c14_code_event_line / code_trace_line / code_callstack_line / code_log_line / code_process_column (the '
+             'columns of the five line builders, regenerated on every run from the f-strings of the source - switch, content, '
+             'alignment, width, literal suffix, colour names - render to exactly the model lines) and '
+             'c14_event_line / c14_trace_line / c14_callstack_line / c14_log_line (every line is the concatenation, '
              'in a fixed order, of its enabled columns, the column texts not depending on the switches - for all settings as '
              'arbitrary booleans), c14_colour_keeps_text (a coloured log line with its SGR sequences removed IS the plain line), '
              'c14_padding_never_truncates, c14_process_column + c14_lines_incremental (line k names the process declared by the '
@@ -207,7 +213,8 @@ CLAIMS = {
         note='partial: pygments highlighting of trace lines and the datetime branch of the timestamp column are outside the '
              'model (trace colour compared with escape sequences stripped; the date text of a log line is a parameter). '
              'trusted: Coq kernel+vm_compute; hand models Format.v / FormatLog.v (f-string padding by code points, repr(bytes), '
-             'termcolor SGR wrapping, table writes of the trace/sampler decoders) validated each run',
+             'termcolor SGR wrapping, table writes of the trace/sampler decoders) validated each run; translator tr_format.py '
+             '(fail-closed; colour name -> SGR parameter by termcolor table)',
         technique='Coq proof (column algebra; escape-sequence stripping; incremental table evolution) + end-to-end correspondence',
         ref='DESIGN.md §5 C14, §10'),
     'C12': dict(
